@@ -29,9 +29,11 @@ import recipes
 
 pt = recipes.pt  # the real pyteal under common.REPO
 
-MODULES = ["PyTealV.Proofs.C04"]
+# AnnotLemmas: the splitlines / comment-line lemmas that §5 (label lines) shares with C18
+MODULES = ["PyTealV.Proofs.C04", "PyTealV.Proofs.AnnotLemmas"]
 EXTRA = [LEAN / "PyTealV" / "Proofs" / f for f in ("C04Lemmas.lean", "C04Flow.lean", "C04Legal.lean")] + [
-    LEAN / "PyTealV" / "Check" / "Flow.lean", LEAN / "PyTealV" / "OpSpec.lean", LEAN / "PyTealV" / "Cmd" / "C04.lean"]
+    LEAN / "PyTealV" / "Check" / "Flow.lean", LEAN / "PyTealV" / "OpSpec.lean", LEAN / "PyTealV" / "Cmd" / "C04.lean",
+    LEAN / "PyTealV" / "Models" / "LabelText.lean", LEAN / "PyTealV" / "Models" / "Annot.lean"]
 TRUSTED = [
     "Lean 4 kernel; axioms propext, Classical.choice, Quot.sound only",
     "Avm.Syntax / Avm.Sem (hand-written TEAL grammar and machine; never edited by this check)",
@@ -104,8 +106,9 @@ def classify(res: dict) -> str | None:
             others_ok = all((not t.isdigit()) or int(t) <= 255 for t in rest[:-1])
             if others_ok:
                 return "C04-txna-index-over-255"
-        if op in ("intc", "bytec") and m.group(1).isdigit() and int(m.group(1)) > 255:
-            return "C04-intc-over-255"
+        # `intc`/`bytec` above 255 (retired key C04-intc-over-255, repaired by commit 2a27358 of
+        # pyteal/compiler/constants.py: the blocks hold at most 256 entries) is not classified any more:
+        # if the "constants" stream ever shows one again it is a plain violation
         return None
     if re.match(r"field AssetCreator needs version 5: asset_params_get AssetCreator$", det):
         return "C04-assetcreator-below-v5"
@@ -704,7 +707,9 @@ def many_constants(kind: str, n: int):
     return th
 
 
-NAME_ALPHABET = ["a", "Z", "0", "_", "-", " ", ":", ";", "/", "//", "\"", "'", "\\", "\t", "\r", "é", "☃", "#", "\n", "\nint 7\n", "\nerr", "main", "l0", "b"]
+# every line boundary of str.splitlines() (TealLabel.assemble cuts the name with it), \r\n as one boundary
+NAME_ALPHABET = ["a", "Z", "0", "_", "-", " ", ":", ";", "/", "//", "\"", "'", "\\", "\t", "\r", "é", "☃", "#", "\n", "\nint 7\n", "\nerr", "main", "l0", "b",
+                 "\r\n", "\x0b", "\x0c", "\x1c", "\x1d", "\x1e", "\x85", "\u2028", "\u2029", "\rerr", "\u2028int 7", "\x84", "\u2027"]
 
 
 def name_program(names: list[str], use_abi=False):
@@ -721,7 +726,7 @@ def name_program(names: list[str], use_abi=False):
 
 
 def name_program_single(name: str):
-    """the program of Proofs/C04.lean `nameNewlineTeal`"""
+    """the program of the regression example of Proofs/C04.lean (`name_newline_regression`)"""
     def th():
         def fn(a):
             return a
@@ -986,22 +991,20 @@ def run(tier: str) -> int:
             if res[0] != "ok" or ref[0] != "ok":
                 continue
             injected = instr_stream(res[1]) != instr_stream(ref[1])
-            newline = any("\n" in nm for nm in names)
             name_stats["injected" if injected else "same"] += 1
+            if any("\n" in nm for nm in names):
+                name_stats["with-line-feed"] += 1
+            if any(len(nm.splitlines()) > 1 or nm.splitlines() == [""] for nm in names):
+                name_stats["with-line-boundary"] += 1
             rp = {"stream": "names", "case": repr(names), "names": names, "index": i}
             if injected:
-                # the name changed the instruction stream: C04 (and C18). Known for names containing a newline.
+                # the name changed the instruction stream: C04 (and C18).  Was the known finding C04-name-newline for names
+                # with a line feed until the repair 90c7383 (label_lines now holds for every name): a violation, no key.
                 rep.violation(
                     f"subroutine names {names!r} change the emitted instruction stream (v{v}): "
                     f"{len(instr_stream(res[1]))} vs {len(instr_stream(ref[1]))} instructions",
-                    dict(rp, version=v, mode="app", teal=res[1], reference=ref[1]),
-                    key="C04-name-newline" if newline else None)
-                if newline:
-                    run_.known["C04-name-newline"] += 1
-                # wf on the injected text as well, under the same key when the newline is the cause
-                run_.submit(res[1], v, "app", rp, force_key="C04-name-newline" if newline else None)
-            else:
-                run_.submit(res[1], v, "app", rp)
+                    dict(rp, version=v, mode="app", teal=res[1], reference=ref[1]))
+            run_.submit(res[1], v, "app", rp)
         rep.coverage["names"] = dict(name_stats)
         # correspondence: model of TealLabel.assemble (Models/LabelText.lean) vs the real class
         from pyteal.ir.teallabel import TealLabel
@@ -1010,7 +1013,9 @@ def run(tier: str) -> int:
         qs, exp = [], []
         for i in range(n_lab):
             r = rng(f"c04-label-{i}")
-            comment = None if r.random() < 0.2 else "".join(r.choice(NAME_ALPHABET) for _ in range(r.choice([0, 1, 2, 4])))
+            comment = None if r.random() < 0.2 else "".join(r.choice(NAME_ALPHABET) for _ in range(r.choice([0, 1, 2, 4, 7])))
+            if i < len(NAME_ALPHABET):
+                comment = NAME_ALPHABET[i] if i % 2 else "x" + NAME_ALPHABET[i] + "y"
             label = "".join(r.choice("abz09_") for _ in range(r.choice([1, 3, 6])))
             real = TealLabel(None, LabelReference(label), comment).assemble()
             qs.append("c04-label " + ("none" if comment is None else (comment.encode().hex() or "-")) + " " + label.encode().hex())
@@ -1022,19 +1027,25 @@ def run(tier: str) -> int:
                 rep.violation(f"label text model differs from TealLabel.assemble for comment={comment!r} label={label!r}",
                               {"stream": "label-model", "comment": comment, "label": label, "model": got, "real": real}, no_input=True)
         rep.coverage["label_model_correspondence"] = {"cases": n_lab, "mismatches": lab_bad}
-        # the counterexample of Proofs/C04.lean (name_newline_counterexample), replayed on the real compiler
+        # regression case (was the known finding C04-name-newline, repaired by 90c7383; Lean: name_newline_regression):
+        # the name `f\nint 7` must give the two comment lines `// f`, `// int 7` and NO instruction line `int 7`
         res = compile_expr(name_program_single("f\nint 7"), "app", 4)
         if res[0] == "ok":
             lines = res[1].split("\n")
-            hit = any(lines[k:k + 3] == ["// f", "int 7", "fint7_0:"] for k in range(len(lines)))
-            rep.coverage["name_newline_counterexample_reproduced"] = hit
-            if hit:
+            extra = any(ln.split("//")[0].split() == ["int", "7"] for ln in lines)
+            as_model = any(lines[k:k + 4] == ["", "// f", "// int 7", "fint7_0:"] for k in range(len(lines)))
+            rep.coverage["name_newline_regression"] = {"extra_instruction_line": extra, "header_as_label_lines_says": as_model}
+            if extra:
                 rep.violation("subroutine name 'f\\nint 7' puts the instruction line `int 7` between the comment and the label "
-                              "(Lean: name_newline_counterexample)",
-                              {"stream": "names-ce", "names": ["f\nint 7"], "version": 4, "mode": "app", "teal": res[1]}, key="C04-name-newline")
-                run_.known["C04-name-newline"] += 1
-            else:
-                rep.notes.append("name_newline_counterexample is no longer reproduced by the real compiler (defect fixed?): " + repr(res[1])[:200])
+                              "(the defect repaired by 90c7383 is back; Lean: name_newline_regression shows the old text)",
+                              {"stream": "names-ce", "names": ["f\nint 7"], "version": 4, "mode": "app", "teal": res[1]})
+            elif not as_model:
+                rep.violation("the header of the subroutine named 'f\\nint 7' is not the text of label_lines "
+                              "(empty line, `// f`, `// int 7`, `fint7_0:`)",
+                              {"stream": "names-ce", "names": ["f\nint 7"], "version": 4, "mode": "app", "teal": res[1]})
+        else:
+            rep.violation("the program with the subroutine named 'f\\nint 7' no longer compiles: " + str(res[:2])[:200],
+                          {"stream": "names-ce", "names": ["f\nint 7"], "version": 4, "mode": "app"}, no_input=True)
 
         # (i) generated programs and routers
         n_gen = 260 if quick else 9000
@@ -1147,6 +1158,12 @@ def replay(path: str) -> int:
     if not ans["ok"]:
         lines = [ln for ln in teal.split("\n")]
         print("\n".join(lines[:60]))
+    if data.get("stream") == "names-ce":
+        extra = any(ln.split("//")[0].split() == ["int", "7"] for ln in teal.split("\n"))
+        print("expected (label_lines): no instruction line `int 7` in the header of the routine named", repr(data["names"][0]))
+        print("got (real TEAL): extra instruction line present =", extra)
+        print("\n".join(teal.split("\n")[:20]))
+        return 1 if (extra or not ans["ok"]) else 0
     if data.get("stream") == "names" and "reference" in data:
         ref = compile_expr(name_program([f"plain{k}" for k in range(len(data["names"]))]), data["mode"], data["version"])
         same = ref[0] == "ok" and instr_stream(ref[1]) == instr_stream(teal)
